@@ -6,6 +6,7 @@ package e5
 import (
 	"context"
 	"fmt"
+	"net/http/httptest"
 	"sync"
 	"time"
 
@@ -14,6 +15,8 @@ import (
 	"github.com/prometheus/prometheus/discovery/targetgroup"
 
 	"kvassverif/internal/sc"
+	"tkestack.io/kvass/pkg/coordinator"
+	"tkestack.io/kvass/pkg/target"
 	"tkestack.io/kvass/pkg/discovery"
 	"tkestack.io/kvass/pkg/explore"
 	"tkestack.io/kvass/pkg/prom"
@@ -27,6 +30,7 @@ type pipeline struct {
 	exp  *explore.Explore
 	disc *discovery.TargetsDiscovery
 	sdCh chan map[string][]*targetgroup.Group
+	svc  *coordinator.Service // the coordinator's API service, reading the same tables as everybody else
 
 	ctx    context.Context
 	cancel context.CancelFunc
@@ -45,6 +49,27 @@ func newPipeline(workers int) *pipeline {
 	p.exp = explore.New(p.sm, prometheus.NewRegistry(), sc.Quiet)
 	// same order as cmd/kvass/coordinator.go
 	p.cm.AddReloadCallbacks(p.sm.ApplyConfig, p.exp.ApplyConfig, p.disc.ApplyConfig)
+	// the API service as cmd/kvass/coordinator.go constructs it; the per-target health it shows comes from the
+	// coordinator, here: alternating by hash so that health filters have something to filter
+	p.svc = coordinator.NewService("", p.cm,
+		func(string, bool) (map[string]*scrape.StatisticsSeriesResult, error) {
+			return map[string]*scrape.StatisticsSeriesResult{}, nil
+		},
+		func() map[uint64]*target.ScrapeStatus {
+			m := map[uint64]*target.ScrapeStatus{}
+			for h := range p.disc.ActiveTargetsByHash() {
+				st := target.NewScrapeStatus(1, 1)
+				switch h % 3 {
+				case 0:
+					st.Health = "up"
+				case 1:
+					st.Health = "down"
+				}
+				m[h] = st
+			}
+			return m
+		},
+		p.disc.ActiveTargets, p.disc.DropTargets, prometheus.NewRegistry(), sc.Quiet)
 	go func() { _ = p.disc.Run(p.ctx, p.sdCh) }()
 	go func() {
 		for {
@@ -71,6 +96,19 @@ func newPipeline(workers int) *pipeline {
 }
 
 func (p *pipeline) close() { p.cancel() }
+
+// apiReads issues the read requests an operator or dashboard sends to the coordinator's API.
+func (p *pipeline) apiReads() int {
+	n := 0
+	for _, q := range []string{"", "?health=up", "?health=down&state=active", "?health=unknown", "?job=ja&health=up", "?statistics=with", "?state=dropped", "?health=up&health=down"} {
+		rw := httptest.NewRecorder()
+		p.svc.ServeHTTP(rw, httptest.NewRequest("GET", "/api/v1/targets"+q, nil))
+		if rw.Code == 200 {
+			n++
+		}
+	}
+	return n
+}
 
 // update sends one discovery update and waits until it has reached the explorer.
 func (p *pipeline) update(groups map[string][]*targetgroup.Group) error {
